@@ -56,68 +56,76 @@ func runCase(c Case, s *hx.Sink) string {
 	var steps []string
 	for _, o := range c.Ops {
 		var out string
-		switch o.K {
-		case "W":
-			err := rb.Write(o.V)
-			if err == nil {
-				out = "OutOk"
-			} else if errors.Is(err, gerrors.ErrExhausted) {
-				out = "OutExhausted"
-			} else {
-				out = "OutOfFuel" // unknown error: never matches the model
-			}
-		case "R":
-			v, err := rb.Read()
-			if err == nil {
-				out = "OutVal " + hx.Z(v)
-			} else if err == io.EOF {
-				out = "OutEOF"
-			} else {
-				out = "OutOfFuel"
-			}
-		case "N":
-			dst := make([]int64, o.V)
-			for i := range dst {
-				dst[i] = sentinel
-			}
-			n := rb.ReadN(dst)
-			ok := n >= 0 && n <= len(dst)
-			if ok {
-				for _, x := range dst[n:] {
-					if x != sentinel {
-						ok = false
+		func() {
+			// a panic of any operation is an observation (only At out of range may panic)
+			defer func() {
+				if r := recover(); r != nil {
+					out = "OutPanic"
+				}
+			}()
+			switch o.K {
+			case "W":
+				err := rb.Write(o.V)
+				if err == nil {
+					out = "OutOk"
+				} else if errors.Is(err, gerrors.ErrExhausted) {
+					out = "OutExhausted"
+				} else {
+					out = "OutOfFuel" // unknown error: never matches the model
+				}
+			case "R":
+				v, err := rb.Read()
+				if err == nil {
+					out = "OutVal " + hx.Z(v)
+				} else if err == io.EOF {
+					out = "OutEOF"
+				} else {
+					out = "OutOfFuel"
+				}
+			case "N":
+				dst := make([]int64, o.V)
+				for i := range dst {
+					dst[i] = sentinel
+				}
+				n := rb.ReadN(dst)
+				ok := n >= 0 && n <= len(dst)
+				if ok {
+					for _, x := range dst[n:] {
+						if x != sentinel {
+							ok = false
+						}
 					}
 				}
-			}
-			if ok {
-				out = "OutVals " + hx.ZList(dst[:n])
-			} else {
-				out = "OutOfFuel"
-			}
-		case "S":
-			n := rb.Skip(int(o.V))
-			if n < 0 {
-				out = "OutOfFuel"
-			} else {
-				out = "OutN " + hx.Nat(n)
-			}
-		case "A":
-			func() {
-				defer func() {
-					if r := recover(); r != nil {
-						out = "OutPanic"
-					}
+				if ok {
+					out = "OutVals " + hx.ZList(dst[:n])
+				} else {
+					out = "OutOfFuel"
+				}
+			case "S":
+				n := rb.Skip(int(o.V))
+				if n < 0 {
+					out = "OutOfFuel"
+				} else {
+					out = "OutN " + hx.Nat(n)
+				}
+			case "A":
+				func() {
+					defer func() {
+						if r := recover(); r != nil {
+							out = "OutPanic"
+						}
+					}()
+					out = "OutVal " + hx.Z(rb.At(int(o.V)))
 				}()
-				out = "OutVal " + hx.Z(rb.At(int(o.V)))
-			}()
-		case "C":
-			rb.Clear()
-			out = "OutOk"
-		case "L":
-			out = "OutN " + hx.Nat(rb.Len())
-		case "P":
-			out = "OutN " + hx.Nat(rb.Cap())
-		}
+			case "C":
+				rb.Clear()
+				out = "OutOk"
+			case "L":
+				out = "OutN " + hx.Nat(rb.Len())
+			case "P":
+				out = "OutN " + hx.Nat(rb.Cap())
+			}
+		}()
 		buf, _, _ := rb.VerifBacking()
 		nz := 0
 		for _, x := range buf {
